@@ -200,6 +200,38 @@ def rule_single_handle(ctx):
                               f"while executing {kind} a new engine cursor is opened (`.cursor()`): what runs on it is outside the session's "
                               f"transaction (survives ROLLBACK, visible to others before COMMIT) and is not seen by the session itself until then")
     ctx.floor("C13.f traces", n, 40)
+    # write_pandas is a statement too: its INSERT runs on the session's own engine handle
+    if prog.has_fn("pandas_tools", "write_pandas"):
+        from ..execmodel import ExecHooks, make_session
+        from ..interp import explore
+        from ..values import Obj, Sym
+
+        hooks, handles = [], []
+
+        def fac():
+            h = ExecHooks(None)
+            hooks.append(h)
+            return h
+
+        def run(I):
+            duck, conn, cur = make_session()
+            handles.append(duck)
+            return I.call(I.global_lookup("pandas_tools", "write_pandas"), [conn, Obj("df", kind="df"), Sym("TABLE_NAME", typ="str", truthy=True)], {}, None)
+
+        for p, h, duck in zip(explore(prog, fac, run, max_paths=16), hooks, handles):
+            if p.outcome != "return":
+                continue
+            curs = [e for e in p.effects if e[0] == "engine" and e[1] == "cursor"]
+            ins = [e for e in p.effects if e[0] == "engine" and e[1] == "execute"]
+            ok = not curs and bool(ins)
+            ctx.ob("C13.f", "write_pandas: the INSERT runs on the session's own engine handle", ok, "fakesnow/pandas_tools.py")
+            if not ok:
+                site = (curs or ins or [(None,) * 5])[0][4]
+                ctx.violation("C13.f", "pandas_tools", "write_pandas", "rows loaded through another engine cursor", f"fakesnow/pandas_tools.py:{getattr(site, 'lineno', 0)}",
+                              "write_pandas opens a new engine cursor (`.cursor()`) for its INSERT: the rows are written outside the session's "
+                              "transaction — visible to others before COMMIT, kept after ROLLBACK, and a table created in the open transaction "
+                              "cannot be loaded")
+            break
 
 
 RULES = [
